@@ -49,6 +49,7 @@ type HarnessSpec struct {
 	Funcs     []string `json:"funcs,omitempty"` // anchored functions expected on executed paths
 	Summaries map[string]string `json:"summaries,omitempty"`
 	BudgetAsViolation bool `json:"budget_as_violation,omitempty"`
+	MaxPreempt        int  `json:"max_preempt,omitempty"`
 }
 
 type Index struct {
@@ -363,7 +364,7 @@ func cmdCheck(args []string) int {
 				continue
 			}
 			jobs = append(jobs, interp.Job{Property: prop, Harness: h.Harness, Pkg: pkgPath(h.Pkg), Instance: i, Mode: h.Mode, Solver: h.Solver,
-				TimeoutMS: to, MaxSteps: h.MaxSteps, MaxDepth: h.MaxDepth, MaxPaths: h.MaxPaths, SliceS: 15, KFOpen: kfOpen, Summaries: h.Summaries, BudgetAsViolation: h.BudgetAsViolation})
+				TimeoutMS: to, MaxSteps: h.MaxSteps, MaxDepth: h.MaxDepth, MaxPaths: h.MaxPaths, SliceS: 15, KFOpen: kfOpen, Summaries: h.Summaries, BudgetAsViolation: h.BudgetAsViolation, MaxPreempt: h.MaxPreempt})
 		}
 	}
 	if len(jobs) == 0 {
